@@ -1012,6 +1012,8 @@ fn expand_mechdown_includes_recursive(
   })?;
 
   if active_set.contains(&canonical_path) {
+    #[cfg(mech_verif)]
+    crate::verif_hooks::include_event("cycle", &canonical_path);
     return Err(
       MechError::new(
         GenericError {
@@ -1024,6 +1026,8 @@ fn expand_mechdown_includes_recursive(
   }
 
   active_set.insert(canonical_path.clone());
+  #[cfg(mech_verif)]
+  crate::verif_hooks::include_event("enter", &canonical_path);
 
   let mut source = String::new();
   File::open(&canonical_path)
@@ -1081,6 +1085,8 @@ fn expand_mechdown_includes_recursive(
   }
 
   active_set.remove(&canonical_path);
+  #[cfg(mech_verif)]
+  crate::verif_hooks::include_event("exit", &canonical_path);
   Ok(result)
 }
 
